@@ -97,6 +97,110 @@ def random_point(rng):
     return _spec("Cavity", length=L if L > 0 else 1.0, voltage=0.0, phase=rng.choice([0.0, 30.0]), frequency=1.3e9)
 
 
+# ---------------------------------------------------------------- elements reached through a HISTORY of assignments (round 6, C02-7)
+# The property speaks about the element's CURRENT parameter values.  A share of the points is therefore not built freshly: the element
+# is constructed with OTHER values (spec["init_kw"]), optionally used once, and then every assignable parameter is re-assigned through
+# the public attribute / property setter to the FINAL values spec["kw"] (random order).  The reference map is that of spec["kw"].
+ALT = {"length": [0.0, 0.1, 0.3, 0.8, 1.5, 2.5], "angle": [0.0, 0.2, -0.15, 0.4, 2e-3], "k1": [0.0, 1.0, -2.0, 6.0], "tilt": [0.0, 0.3, -0.7, PI / 2],
+       "dipole_e1": [0.0, 0.2, -0.05], "dipole_e2": [0.0, 0.2, -0.05], "rbend_e1": [0.0, 0.2, -0.05], "rbend_e2": [0.0, 0.2, -0.05],
+       "gap": [0.0, 0.01, 0.04], "gap_exit": [0.0, 0.01, 0.04], "fringe_integral": [0.0, 0.3, 0.6], "fringe_integral_exit": [0.0, 0.3, 0.6],
+       "k": [0.0, 1.5, -0.5], "misalignment": [[0.0, 0.0], [2e-3, -1e-3], [0.0, 4e-4]], "voltage": [0.0, 1e6, -2e6], "phase": [0.0, 45.0, -90.0],
+       "frequency": [1.3e9, 2.856e9], "is_active": [False, True]}
+HISTORY_CLASSES = ("Drift", "Quadrupole", "Dipole", "RBend", "Solenoid", "HorizontalCorrector", "VerticalCorrector", "Undulator", "Cavity")
+
+
+def with_history(rng, spec, force=None):
+    """the same final point, reached by construction with other values + re-assignment of every assignable parameter.
+    `force`: {key: initial value} pinned by a forced point."""
+    if spec["cls"] not in HISTORY_CLASSES:
+        return spec
+    s = copy.deepcopy(spec)
+    kw = s["kw"]
+    if s["cls"] in ("Dipole", "RBend"):
+        # after construction fringe_integral_exit / gap_exit are tensors of their own (they follow fringe_integral / gap only inside
+        # __init__): the final point names them explicitly so that "every parameter re-assigned" determines the element
+        kw.setdefault("fringe_integral_exit", kw.get("fringe_integral", 0.0))
+        if kw["fringe_integral_exit"] is None:
+            kw["fringe_integral_exit"] = kw.get("fringe_integral", 0.0)
+        if kw.get("gap_exit") is None:
+            kw["gap_exit"] = kw.get("gap", 0.0)
+    init = {}
+    for k, v in kw.items():
+        pool = [a for a in ALT.get(k, []) if a != v]
+        if s["cls"] in ("Dipole", "RBend") and k == "length":
+            pool = [a for a in pool if a == 0.0 or a >= 0.1]
+        init[k] = rng.choice(pool) if (pool and (k in realgen.TENSOR_KW or k in realgen.ASSIGNABLE_PLAIN)) else v
+    init.update(force or {})
+    order = [k for k in kw if k in realgen.TENSOR_KW or k in realgen.ASSIGNABLE_PLAIN]
+    rng.shuffle(order)
+    if s["cls"] == "RBend" and "angle" in order:
+        # RBend stores dipole_e = rbend_e + angle/2 when rbend_e is ASSIGNED: the rectangular pole-face angles are given after the angle
+        order.remove("angle")
+        order.insert(0, "angle")
+    s["init_kw"], s["order"], s["warm"] = init, order, rng.random() < 0.5
+    return s
+
+
+def _build(spec, E=None):
+    return realgen.build_history(spec, warm_energy=E)
+
+
+def forced_history_points(rng):
+    dip = dict(length=0.5, angle=0.3, k1=0.0, dipole_e1=0.05, dipole_e2=-0.1, tilt=0.0, gap=0.02, fringe_integral=0.5)
+    rb = dict(length=0.5, angle=-0.2, k1=0.0, rbend_e1=0.05, rbend_e2=-0.1, tilt=0.1, gap=0.02, fringe_integral=0.5)
+    P = [(_spec("Dipole", **dip), {"length": 1.25}), (_spec("Dipole", **dict(dip, length=2.0, k1=0.4, tilt=0.1)), {"length": 0.0}),
+         (_spec("Dipole", **dict(dip, angle=-0.25)), {"angle": 0.0}), (_spec("RBend", **rb), {"length": 0.8}),
+         (_spec("RBend", **dict(rb, angle=0.3, k1=0.5)), {"angle": -0.1}),
+         (_spec("Quadrupole", length=0.5, k1=-3.0, misalignment=[1e-3, -2e-3], tilt=PI / 4), {"k1": 0.0, "length": 0.0}),
+         (_spec("Quadrupole", length=0.25, k1=0.0, misalignment=[0.0, 0.0], tilt=0.0), {"k1": 6.0, "tilt": 0.3}),
+         (_spec("Solenoid", length=1.0, k=0.5, misalignment=[5e-4, 3e-4]), {"k": 0.0}),
+         (_spec("HorizontalCorrector", length=0.1, angle=-2e-3), {"angle": 0.0}), (_spec("VerticalCorrector", length=0.5, angle=0.01), {"length": 0.0}),
+         (_spec("Cavity", length=1.0, voltage=0.0, phase=30.0, frequency=1.3e9), {"voltage": 1e6}),
+         (_spec("Drift", length=2.0), {"length": 0.0}), (_spec("Undulator", length=0.5, is_active=False), {"length": 2.5})]
+    return [with_history(rng, s, force=f) for s, f in P]
+
+
+# ---- the two tracking methods of one element agree to first order around the design orbit (where both exist)
+def method_consistency(spec, E):
+    """Drift / Quadrupole / Dipole / RBend have a second tracking method (Bmad-X).  Both describe the same magnet, so its response to a
+    probe displaced by a = 1e-6 along each phase-space axis must agree with transfer_map to first order (second-order terms are
+    O(a^2)): list of (probe axis, coordinate, bmadx, linear, tol).  Compared where Bmad-X models the same physics: k1 = 0 for bends
+    (its body has no gradient), angle != 0 and length != 0 (F8 / thin branch), gap_exit == gap."""
+    import cheetah
+    cls, kw = spec["cls"], spec["kw"]
+    if cls not in ("Drift", "Quadrupole", "Dipole", "RBend") or kw.get("length", 0.0) == 0.0:
+        return None
+    if cls in ("Dipole", "RBend") and (kw.get("k1", 0.0) != 0.0 or kw.get("angle", 0.0) == 0.0 or abs(kw["angle"]) > 1.0
+                                       or (kw.get("gap_exit") is not None and kw["gap_exit"] != kw.get("gap", 0.0))):
+        return None
+    if cls == "Quadrupole" and (abs(kw.get("k1", 0.0)) * kw["length"] ** 2 > 30 or any(kw.get("misalignment") or [0.0])):
+        return None       # a misaligned quadrupole has a genuine second-order (offset x delta) term the linear map does not carry
+    el = _build(spec, E)
+    tm = el.transfer_map(torch.tensor(float(E), dtype=torch.float64))
+    a = 1e-6
+    P = torch.zeros(6, 7, dtype=torch.float64)
+    P[:, 6] = 1.0
+    for i in range(6):
+        P[i, i] = a
+    lin = P @ tm.T
+    el.tracking_method = "bmadx"
+    try:
+        out = el.track(cheetah.ParticleBeam(P.clone(), torch.tensor(float(E), dtype=torch.float64), dtype=torch.float64)).particles
+    finally:
+        el.tracking_method = "cheetah"
+    if not bool(torch.isfinite(out).all()):
+        return None
+    bad = []
+    absmap = tm.abs()
+    for i in range(6):
+        for j in range(6):
+            # first-order scale of coordinate j for this probe + everything a second-order term can contribute: a^2 * (1 + |R|_max)^2 * 1e2
+            tol = 1e-6 * a * (float(absmap[j, i]) + 1.0) + 1e3 * a * a * (1.0 + float(absmap[:6, :6].max())) ** 2
+            if not abs(float(out[i, j] - lin[i, j])) <= tol:
+                bad.append((i, j, float(out[i, j]), float(lin[i, j]), tol))
+    return bad
+
+
 def unspecified(spec):
     """points the property does not speak about: kx2 = k1' + hx^2 at (or numerically at) zero"""
     if spec["cls"] in ("Dipole", "RBend"):
@@ -241,7 +345,7 @@ def spec_params(spec, p):
 
 def oracle(spec, E):
     """list of (i, j, observed, expected, tol) where transfer_map deviates from the exact flow beyond 1e-9 relative"""
-    e = realgen.build(spec)
+    e = _build(spec, E)
     p = spec_params(spec, optics.params(e))
     v = optics.observe(e, E)
     m = optics.model(e, E)
@@ -270,12 +374,39 @@ def classify(spec, bad):
 def shrink(spec, E, still_fails):
     """coordinate-wise: reset parameters to neutral values while the failure persists"""
     spec = copy.deepcopy(spec)
+    if "init_kw" in spec:
+        # is the history needed at all?  then: which re-assigned parameters are needed (construct the others with their final value)
+        t = {k: v for k, v in spec.items() if k not in ("init_kw", "order", "warm")}
+        try:
+            if still_fails(t, E):
+                spec = t
+        except Exception:
+            pass
+    if "init_kw" in spec:
+        for key in list(spec["init_kw"].keys()):
+            if spec["init_kw"][key] != spec["kw"].get(key):
+                t = copy.deepcopy(spec)
+                t["init_kw"][key] = copy.deepcopy(t["kw"][key])
+                try:
+                    if still_fails(t, E):
+                        spec = t
+                except Exception:
+                    pass
+        if spec.get("warm"):
+            t = dict(copy.deepcopy(spec), warm=False)
+            try:
+                if still_fails(t, E):
+                    spec = t
+            except Exception:
+                pass
     neutral = {"tilt": 0.0, "misalignment": [0.0, 0.0], "dipole_e1": 0.0, "dipole_e2": 0.0, "rbend_e1": 0.0, "rbend_e2": 0.0, "gap": 0.0,
                "fringe_integral": 0.0, "fringe_integral_exit": 0.0, "k1": 0.0, "angle": 0.0, "k": 0.0}
     for key, val in neutral.items():
         if key in spec["kw"] and spec["kw"][key] != val:
             t = copy.deepcopy(spec)
             t["kw"][key] = val
+            if "init_kw" in t and t["init_kw"].get(key) == val:
+                continue          # would remove the re-assignment of this parameter: handled above
             try:
                 if not unspecified(t) and still_fails(t, E):
                     spec = t
@@ -418,6 +549,10 @@ def main(tier, replay=None):
     forced = forced_points()
     for k, s in enumerate(forced):
         pts.append((s, ENERGIES[k % len(ENERGIES)]))
+    hist_forced = forced_history_points(run.rng)
+    for k, s in enumerate(hist_forced):
+        pts.append((s, ENERGIES[(k + 2) % len(ENERGIES)]))
+    forced = forced + hist_forced
     n_rand = 400 if thorough else 45
     tries = 0
     while len(pts) < len(forced) + n_rand and tries < 20 * n_rand:
@@ -426,6 +561,8 @@ def main(tier, replay=None):
         if unspecified(s):
             run.count("discarded_unspecified_kx2_near_0")
             continue
+        if run.rng.random() < 0.4:
+            s = with_history(run.rng, s)
         E = run.rng.choice(ENERGIES + [round(10 ** run.rng.uniform(math.log10(1.5e6), math.log10(5e10)), -3)])
         pts.append((s, E))
     if thorough:   # every forced point at every energy
@@ -435,7 +572,7 @@ def main(tier, replay=None):
 
     # ---- correspondence goals + oracle on every point
     gl, owner = [], []
-    oracle_bad = []
+    oracle_bad, methods_bad = [], []
     for idx, (s, E) in enumerate(pts):
         cls = s["cls"]
         run.add_case([s, E], cls not in optics.IDENTITY_CLASSES)
@@ -450,8 +587,13 @@ def main(tier, replay=None):
             run.count("k1_guard_active")
         if kw.get("length") == 0.0:
             run.count("length_zero")
+        if "init_kw" in s:
+            run.count("history_reassigned")
+            run.count("history_" + cls)
+            if s.get("warm"):
+                run.count("history_used_before_reassignment")
         try:
-            e = realgen.build(s)
+            e = _build(s, E)
             g, meta = optics.goals(e, E)
             for gg, mm in zip(g, meta):
                 gl.append(gg)
@@ -468,9 +610,19 @@ def main(tier, replay=None):
             bad = [(-1, -1, repr(ex), None, None)]
         if bad:
             oracle_bad.append((s, E, bad))
+        try:
+            mc = method_consistency(s, E)
+        except Exception as ex:   # an exception of the implementation is an observation
+            mc = [(-1, -1, repr(ex), None, None)]
+        if mc is not None:
+            run.count("two_methods_compared")
+            if "init_kw" in s:
+                run.count("two_methods_compared_after_history")
+            if mc:
+                methods_bad.append((s, E, mc))
     if pts:
         s0, E0 = pts[4]
-        run.sample({"spec": s0, "energy": E0, "transfer_map": optics.observe(realgen.build(s0), E0)})
+        run.sample({"spec": s0, "energy": E0, "transfer_map": optics.observe(_build(s0, E0), E0)})
     run.cov['timing_s']['generate_observe_oracle'] = round(time.time() - t0, 1)
     # balance the shards: deal the goals, most expensive first, round-robin over the shards
     shard = 4 if not thorough else 8
@@ -498,7 +650,7 @@ def main(tier, replay=None):
         for idx in idxs:
             s, E = pts[idx]
             try:
-                g2 += optics.goals(realgen.build(s), E, und_fixed=f3_known)[0]
+                g2 += optics.goals(_build(s, E), E, und_fixed=f3_known)[0]
             except Exception:
                 g2.append(("False", "idtac."))
         f2, _ = common.run_real_goals(PID, "corr_und_other", optics.PREAMBLE, g2, shard=8, jobs=16)
@@ -521,7 +673,7 @@ def main(tier, replay=None):
             n_named += 1
             # name the failing entries: re-run this point with one goal per entry
             try:
-                g2, m2 = optics.goals(realgen.build(s), E, per_entry=True)
+                g2, m2 = optics.goals(_build(s, E), E, per_entry=True)
                 sel = [(g, m) for g, m in zip(g2, m2) if m["kind"] == "num"]
                 f2, e2 = common.run_real_goals(PID, f"corr_entries_{idx}", optics.PREAMBLE, [g for g, _ in sel], shard=4, jobs=16, max_fail=50)
                 entries = [sel[i][1]["entries"][0] for i in f2]
@@ -556,6 +708,9 @@ def main(tier, replay=None):
                               "Marker / BPM / Screen / Aperture track() leaves coordinates untouched (element alone: bit-identical; inside "
                               "Segment([Drift, element, Drift]): equal to the drifts alone within 1e-12), both beam types, active/inactive, "
                               "blocking/non-blocking, aligned/misaligned screens, both aperture shapes",
+                              "elements reached through a history (constructed with other values, optionally used once, every assignable "
+                              "parameter re-assigned through its setter in random order): same goals and oracle as fresh elements, reference = final values",
+                              "Drift / Quadrupole / Dipole / RBend: tracking_method='bmadx' vs transfer_map to first order around the design orbit (probes of 1e-6)",
                               "vectorised (batched) elements are not exercised here (C04)"]
 
     # ---- verdict
@@ -575,6 +730,17 @@ def main(tier, replay=None):
         run.violation({"kind": "oracle", "spec": s2, "energy": E, "original_spec": s,
                        "relation": "transfer_map(energy) == exp(L * S6.Hess(H)) (with edges / tilt / misalignment / kick as specified)",
                        "deviations": [{"entry": [b[0], b[1]], "observed": b[2], "expected": b[3], "tol": b[4]} for b in bad2[:12]]})
+    elif methods_bad:
+        s, E, mc = methods_bad[0]
+
+        def mfails(sp, EE):
+            return bool(method_consistency(sp, EE))
+        s2 = shrink(s, E, mfails)
+        mc2 = method_consistency(s2, E) or mc
+        run.violation({"kind": "two_methods", "spec": s2, "energy": E, "original_spec": s,
+                       "relation": "track() with tracking_method='bmadx' of a probe displaced by 1e-6 along each axis == transfer_map(energy) @ probe to first "
+                                   "order (both methods describe the same magnet around the design orbit)",
+                       "deviations": [{"probe_axis": b[0], "coordinate": b[1], "bmadx": b[2], "linear": b[3], "tol": b[4]} for b in mc2[:12]]})
     elif broken:
         # model/implementation disagree (or machinery broke) but the oracle sees nothing at the generated points: search the neighbourhood
         found = None
@@ -679,6 +845,10 @@ def do_replay(run, path):
         f = untouched_check(r["spec"], r["beam"])
         print("replay:", "property holds on this input" if not f else f"property FAILS on this input: {json.dumps(f)[:1500]}")
         return 1 if f else 0
+    if r.get("kind") == "two_methods":
+        mc = method_consistency(r["spec"], r["energy"])
+        print("replay:", "property holds on this input" if not mc else f"property FAILS on this input: {json.dumps(mc[:12])}")
+        return 1 if mc else 0
     bad = oracle(r["spec"], r["energy"])
     if bad:
         print("replay: property FAILS on this input:", json.dumps([{"entry": [b[0], b[1]], "observed": b[2], "expected": b[3]} for b in bad[:12]]))
@@ -687,7 +857,7 @@ def do_replay(run, path):
             print(f"(matches known finding {f})")
         return 1
     # no oracle failure: does the model still agree?
-    e = realgen.build(r["spec"])
+    e = _build(r["spec"], r["energy"])
     try:
         gl, meta = optics.goals(e, r["energy"])
         failing, errs = common.run_real_goals(PID, "replay", optics.PREAMBLE, gl)
